@@ -9,6 +9,7 @@ Property theorems only (helpers: Lemmas/PaintBytes.lean).
 -/
 import FontVerif.Model.PaintBytes
 import FontVerif.Lemmas.PaintBytes
+import FontVerif.Lemmas.Paint
 import FontVerif.Props.C13
 set_option linter.unusedVariables false
 namespace FontVerif.C13Bytes
@@ -166,6 +167,111 @@ theorem bytes_visit_bound (d : List Nat) (hbytes : Bytes d) (c : Client) (gid : 
     exact C13.visit_bound (instOfBytes t) c 255 (by omega)
       (instOfBytes_layersBounded t (by rw [hd]; exact hbytes)) gid r st h
 
+/-! ### clip boxes and `bounding_box()` -/
+
+/-- **The root clip box brackets the whole stream, with the values of the `ClipBox` record**: if the glyph
+has a clip box (`ClipBoxFormat1`, or `ClipBoxFormat2` at the default location; any values — inverted and
+empty boxes are pushed as they are) and painting succeeds, the client's stream is
+`push_clip_box(x_min, y_min, x_max, y_max) … pop_clip` with the four `FWord`s of the table. -/
+theorem bytes_root_clip_box_brackets (d : List Nat) (t : Colr) (ht : colrRead d = some t) (c : Client)
+    (gid : Gid) (st : St) (h : paintBytes d c gid = some (none, st))
+    (b : ClipBoxV) (hb : clipOfBytes t gid = some b) :
+    ∃ mid, st.evs = [.pushClipBox b] ++ mid ++ [.popClip] := by
+  unfold paintBytes at h
+  simp only [ht] at h
+  unfold paintV1 at h
+  have hclip : (instOfBytes t).clip gid = some b := hb
+  cases hbase : (instOfBytes t).base gid with
+  | err => simp only [hbase] at h; cases h
+  | notFound => simp only [hbase] at h; cases h
+  | found pid =>
+    have enter_nil : enter [] pid = .ok [pid] := rfl
+    simp only [hbase, hclip, pushClip, popClipIf, enter_nil] at h
+    cases hres : (instOfBytes t).resolve pid with
+    | none => simp only [hres] at h; cases h
+    | some n =>
+      simp only [hres] at h
+      obtain ⟨na, sa, ha⟩ := emit_step c (.pushClipBox b) St.init
+      have hi := trav_inv (instOfBytes t) c MAX_TRAVERSAL_DEPTH n [pid] (emit c (.pushClipBox b) St.init)
+      generalize trav (instOfBytes t) c MAX_TRAVERSAL_DEPTH n [pid] (emit c (.pushClipBox b) St.init) = r at h hi
+      obtain ⟨new, s, _⟩ := hi
+      cases hr : r.1 with
+      | some e => simp only [hr] at h; cases h
+      | none =>
+        simp only [hr] at h
+        cases h
+        obtain ⟨nb, sb, hb'⟩ := emit_step c .popClip r.2
+        have e0 : St.init.opts = [] := rfl
+        have e1 := (Step.nil_iff sa).mpr e0
+        have e2 := (Step.nil_iff s).mpr e1
+        have hev := ((sa.trans s).trans sb).evs
+        rw [ha e0, hb' e2] at hev
+        simp only [St.init, List.nil_append, rootRecord] at hev
+        exact ⟨new, hev⟩
+
+/-- **`ColorGlyph::bounding_box` is total and never panics**: `None` for every COLRv0 glyph, the clip box
+(the same value `paint` pushes) for a COLRv1 glyph, `None` when it has none. -/
+theorem bytes_bounding_box (d : List Nat) (gid : Gid) :
+    (∀ x, boundingBoxBytes d gid true = some x → x = none) ∧
+    (∀ t, colrRead d = some t → ∀ x, boundingBoxBytes d gid false = some x → x = clipOfBytes t gid) := by
+  constructor
+  · intro x h
+    unfold boundingBoxBytes at h
+    split at h
+    · cases h
+    · simp only [if_true] at h
+      split at h
+      · injection h with h; exact h.symm
+      · cases h
+  · intro t ht x h
+    unfold boundingBoxBytes at h
+    simp only [ht, Bool.false_eq_true, if_false] at h
+    split at h
+    · injection h with h; exact h.symm
+    · cases h
+
+/-! ### gradients: when does the arm reach its single `fill()` -/
+
+/-- **Zero colour-stop range with an extend mode other than Pad draws nothing** — Repeat, Reflect and every
+unknown extend byte (`Extend::Unknown`; the condition of seeded change C20-7): the radial and sweep arms, and
+the linear arm on non-degenerate geometry, return without calling `fill`. -/
+theorem zero_range_not_pad_draws_nothing (cl : CLine) (lo : Int)
+    (hmin : listMin cl.offs = some lo) (hmax : listMax cl.offs = some lo) (hext : cl.ext ≠ 0) :
+    radialCase cl = .zeroRangeNotPad ∧ (∀ sa ea, sweepCase sa ea cl = .zeroRangeNotPad) ∧
+    (∀ fmt, gradientBrush fmt cl .zeroRangeNotPad = none) ∧ GCase.zeroRangeNotPad.fills = false := by
+  refine ⟨?_, ?_, fun _ => rfl, rfl⟩
+  · simp [radialCase, hmin, hmax, hext]
+  · intro sa ea; simp [sweepCase, hmin, hmax, hext]
+
+/-- **… and in Pad mode it is filled, with one extra stop appended** (`extra_stop.offset += 1.0`) -/
+theorem zero_range_pad_appends_a_stop (cl : CLine) (lo : Int)
+    (hmin : listMin cl.offs = some lo) (hmax : listMax cl.offs = some lo) (hext : cl.ext = 0) :
+    radialCase cl = .zeroRangePad ∧
+    gradientBrush 6 cl .zeroRangePad = some [2, 0, ((cl.stops.length + 1 : Nat) : Int)] := by
+  refine ⟨by simp [radialCase, hmin, hmax, hext], ?_⟩
+  simp [gradientBrush, extOf, hext]
+
+/-- **A colour line without stops is never filled**, whatever the geometry and extend mode -/
+theorem no_stops_never_fills (cl : CLine) (h : cl.stops = []) (fmt : Nat) (x0 y0 x1 y1 x2 y2 sa ea : Int) :
+    (linearCase x0 y0 x1 y1 x2 y2 cl).fills = false ∧ (radialCase cl).fills = false ∧
+    (sweepCase sa ea cl).fills = false := by
+  have ho : cl.offs = [] := by simp [CLine.offs, h]
+  refine ⟨?_, by simp [radialCase, ho, listMin, listMax, GCase.fills], by simp [sweepCase, ho, listMin, listMax, GCase.fills]⟩
+  unfold linearCase
+  split
+  · simp [h, GCase.fills]
+  · simp [radialCase, ho, listMin, listMax, GCase.fills]
+
+/-- **Degenerate linear gradient** (`p1 == p0` or `p2 == p0`): a solid fill with the first sorted stop, or
+nothing when there is no stop — never the gradient, whatever the extend mode -/
+theorem linear_degenerate_points (x0 y0 x1 y1 x2 y2 : Int) (cl : CLine)
+    (h : (x1 = x0 ∧ y1 = y0) ∨ (x2 = x0 ∧ y2 = y0)) :
+    linearCase x0 y0 x1 y1 x2 y2 cl = (if cl.stops.isEmpty then .degenerateEmpty else .degenerateSolid) := by
+  unfold linearCase
+  rcases h with h | h
+  · simp [h]
+  · simp [h]
+
 /-! ### non-vacuity: concrete byte strings -/
 
 private def unimpl : Client := Client.ofModes 1 0
@@ -200,6 +306,29 @@ private def glyphSolid : List Nat :=
 
 example : (paintBytes glyphSolid unimpl 1).map (fun r => (r.1, r.2.evs, r.2.visits))
     = some (none, [.pushClipBox [0, 0, 100, 100], .fillGlyph 7 none [0, 3, 16384], .popClip], 2) := by decide +kernel
+
+/-- the same table with an INVERTED clip box (x_min 100 > x_max 0): pushed as is, popped once -/
+private def glyphSolidInverted : List Nat := glyphSolid.take 68 ++ [0,100, 0,0, 0,0, 0,100]
+
+example : (paintBytes glyphSolidInverted unimpl 1).map (fun r => (r.1, r.2.evs))
+    = some (none, [.pushClipBox [100, 0, 0, 100], .fillGlyph 7 none [0, 3, 16384], .popClip]) := by decide +kernel
+
+example : boundingBoxBytes glyphSolidInverted 1 false = some (some [100, 0, 0, 100]) := by decide +kernel
+
+/-- glyph 1 = `PaintRadialGradient` with two coincident stops; extend byte 7 (`Extend::Unknown`): nothing
+drawn; extend 0 (Pad): a radial gradient brush with 3 stops -/
+private def radialCoincident (ext : Nat) : List Nat :=
+  [0,1, 0,0, 0,0,0,0, 0,0,0,0, 0,0,
+   0,0,0,34, 0,0,0,0, 0,0,0,0, 0,0,0,0, 0,0,0,0,
+   0,0,0,1, 0,1, 0,0,0,10,
+   6, 0,0,16, 0,0, 0,0, 0,10, 0,50, 0,50, 0,100,     -- @44 PaintRadialGradient, colour line @60
+   ext, 0,2, 0x20,0, 0,2, 0x40,0,  0x20,0, 0,3, 0x40,0]
+
+example : (paintBytes (radialCoincident 7) unimpl 1).map (fun r => (r.1, r.2.evs)) = some (none, []) := by
+  decide +kernel
+example : (paintBytes (radialCoincident 0) unimpl 1).map (fun r => (r.1, r.2.evs))
+    = some (none, [.fill [2, 0, 3]]) := by decide +kernel
+example : gradientCase (radialCoincident 7) 44 6 = some .zeroRangeNotPad := by decide +kernel
 
 /-- a COLRv0 table: glyph 1 has layers 0..3 but only 2 layer records exist -/
 private def v0Short : List Nat :=
